@@ -165,6 +165,19 @@ impl<S: Space> SpaceModel<S> {
         if unknown.is_empty() {
             return true;
         }
+        if std::env::var("VERIF_COLLECT").is_ok() {
+            // triage mode: keep exploring, print a bounded number of examples per failure kind
+            let mut c = st.counters.lock().unwrap();
+            for f in &unknown {
+                let k: &'static str = Box::leak(format!("collect:{}", f.kind).into_boxed_str());
+                let n = c.entry(k).or_insert(0);
+                *n += 1;
+                if *n <= 12 {
+                    eprintln!("COLLECT {} {}", f.kind, f.detail);
+                }
+            }
+            return true;
+        }
         let mut v = st.violation.lock().unwrap();
         if v.is_none() {
             *v = Some((self.space.describe(s), unknown));
